@@ -14,6 +14,15 @@ def check(run):
     from . import gentest_script
     run.attempt(gentest_script.run_rule, run, p, 'C12')
     run.attempt(mustemit, run, p, 'C12-ONEASSERT')
+    # the generated stdout / stderr tests rest on the string-against-file comparison seeing the text as it is
+    from .c04 import split
+    run.attempt(split, run, p, p.cls('FilesComparison'))
+    if 'C04-SPLIT' in run.rules:
+        run.rules['C12-SPLIT'] = run.rules.pop('C04-SPLIT') + ' (a change of the command\'s output that is only trailing blanks on a line must still fail the generated test)'
+        for o in run.obs:
+            if o.rule == 'C04-SPLIT':
+                o.rule = 'C12-SPLIT'
+        run.floors = [(('C12-SPLIT' if r == 'C04-SPLIT' else r), c, m) for r, c, m in run.floors]
     run.attempt(roles, run, p)
     run.attempt(order, run, p)
     run.attempt(exitcode, run, p)
